@@ -94,6 +94,24 @@ theorem C12_fastq (off : Int) (hoff : -128 ≤ off ∧ off ≤ 127) (cpl cpl' : 
             fastqRead (textRoundTrip f0.lines) off cpl' = .ok f ∧ fastqItems f = .ok es :=
   fastq_roundtrip off hoff cpl cpl' hcpl es hne hid hseq hlen hq hnd
 
+/-- **Out-of-range scores are rejected, never wrapped.**  If some `score + offset` is not an ASCII
+code (`0..127`), encoding fails with `ValueError` (repaired: the sum used to be cast to `int8`), and
+`__setitem__` fails as a whole **without touching the file** — in the model a failed `fastqSet`
+returns no new state, in the code the old entry is deleted only after the new lines exist. -/
+theorem C12_fastq_scores_rejected (f : Fastq) (id seq : Str) (qs : List Int)
+    (h : ∃ q ∈ qs, q + f.off < 0 ∨ 127 < q + f.off) :
+    encodeScores f.off qs = .error .valueError ∧ ∀ f', fastqSet f id seq qs ≠ .ok f' := by
+  have he := qEncode_rejects f.off qs h
+  refine ⟨he, ?_⟩
+  intro f' hset
+  unfold fastqSet at hset
+  simp only [he] at hset
+  split at hset
+  · cases hset
+  · split at hset
+    · cases hset
+    · split at hset <;> cases hset
+
 /-- **Edit consistency (FASTQ)**: after `__setitem__` / `__delitem__` the entry index equals a
 re-index of the text — also when the text held the same identifier twice. -/
 theorem C12_edit_consistent_fastq (f f' : Fastq) (id seq : Str) (qs : List Int)
